@@ -12,7 +12,7 @@ import types
 import warnings
 
 LEVEL = "exploration"
-RULE = ("Dynamic: every combination of {with, async with} x layout {one line, expression spread over lines, "
+RULE = ("Dynamic: every combination of {with, async with} x layout {one line, one line shifted by a comment line (equal bytecode, different line table), expression spread over lines, "
         "parenthesised items} x 1..N items x target form (31 forms: local/global/closure names, attributes, subscripts by "
         "constant/name/attribute, nested, positional calls of global/local/method callables, tuple/list/nested/starred "
         "unpacking, plus unsupported: walrus, arithmetic subscripts, keyword calls, slices), suspended inside the body; "
@@ -78,7 +78,7 @@ TARGETS = [  # (target text, value expr, supported: True must render / False,Non
     ("d[1, 2]", "1", None), ("d[ns.kk]", "1", None), ("d[lst[0]]", "1", None), ("(a, ns.x, *d['k'])", "(1, 2, 3)", True),
     ("", "1", None),  # no `as` clause at all
 ]
-LAYOUTS = ["one", "multi", "paren"]
+LAYOUTS = ["one", "gap", "multi", "paren"]
 
 
 def norm(expr):
@@ -117,7 +117,10 @@ def build(kind, layout, items):
 
     def item(v, t):
         return "M(%s) as %s" % (v, t) if t else "M(%s)" % v
-    if layout == "one":
+    if layout in ("one", "gap"):
+        if layout == "gap":
+            # same statement one line further down (same bytecode, different line table)
+            lines.append("    # spacer")
         lines.append("    %s " % kw + ", ".join(item(v, t) for t, v in items) + ":")
         wl = [len(lines)] * len(items)
     elif layout == "multi":
@@ -155,6 +158,12 @@ def dyn_cases(tier):
 def check_dyn(case):
     """returns (status, problems, ncontexts)"""
     from stackscope import lowlevel
+    if case["layout"] == "gap":
+        # self-contained history: the same statement one line higher is analysed first, in this very case (the two code
+        # objects have equal bytecode and, on 3.9/3.10, compare equal although their line tables differ)
+        twin = dict(case)
+        twin["layout"] = "one"
+        check_dyn(twin)
     combo = [TARGETS[i] for i in case["targets"]]
     items = [(t, v) for t, v, s in combo]
     try:
